@@ -37,6 +37,9 @@ def time_grid(kind: str, n: int, T: float, seed: int = 0) -> np.ndarray:
         g = LCG(seed + 3)
         dt = (T / (n - 1)) * (1 + 4e-6 * (np.array([g.next() for _ in range(n - 1)]) - 0.5) + 2e-6 * np.arange(n - 1))
         return np.concatenate([[0.0], np.cumsum(dt)])
+    if kind == "drift":  # evenly spaced up to a smooth 1e-3 stretch (a grid assembled from slightly uneven stamps)
+        x = np.linspace(0.0, 1.0, n)
+        return T * x * (1 + 1e-3 * x) / (1 + 1e-3)
     if kind == "tiny":  # increments of 1e-9 .. 8e-9
         dt = 1e-9 * (1 + (np.arange(n - 1) % 8))
         return np.concatenate([[0.0], np.cumsum(dt)])
